@@ -85,18 +85,30 @@ def has_cycle(gstart, gprods):
     return any(a == b for a, b in edges)
 
 
+CPU_LIMIT = 12      # CPU seconds per process: a looping parser burns CPU; a process that is merely slow on a loaded machine does not
+MEM_LIMIT = 3 * 1024 ** 3
+
+
 def _limits():
-    resource.setrlimit(resource.RLIMIT_AS, (3 * 1024 ** 3, 3 * 1024 ** 3))
+    resource.setrlimit(resource.RLIMIT_AS, (MEM_LIMIT, MEM_LIMIT))
+    resource.setrlimit(resource.RLIMIT_CPU, (CPU_LIMIT, CPU_LIMIT + 2))
 
 
-def run_limited(lines, timeout):
+def run_limited(lines, wall):
+    """Runs the real parsers on the case lines in their own process under a CPU-time and memory limit.
+    Returns (status, replies): status 0 = finished, 'cpu' = killed by the CPU limit (non-termination),
+    'mem' = aborted (allocation failure under the memory limit), 'wall' = wall clock only (inconclusive: machine load)."""
     try:
         p = subprocess.run([common.PV, "prun", "run"], input="\n".join(lines) + "\n", capture_output=True, text=True,
-                           timeout=timeout, preexec_fn=_limits)
-        reps = [l[3:] for l in p.stdout.split("\n") if l.startswith("@@ ")]
-        return p.returncode, reps
+                           timeout=wall, preexec_fn=_limits)
     except subprocess.TimeoutExpired:
-        return "timeout", []
+        return "wall", []
+    reps = [l[3:] for l in p.stdout.split("\n") if l.startswith("@@ ")]
+    if p.returncode == 0:
+        return 0, reps
+    if p.returncode in (-24, -9):          # SIGXCPU / SIGKILL after the hard limit
+        return "cpu", reps
+    return "mem", reps                      # abort on allocation failure (memory grows without bound)
 
 
 def extra(ctx, state):
@@ -104,45 +116,74 @@ def extra(ctx, state):
     impl = common.read_lines(ctx.path("impl.txt"))
     bad = [(c, r) for c, r in zip(cases, impl) if r.split(" ")[0].startswith(BAD) or r.startswith(BAD)]
     cov = {"explored_runs_without_crash": len(cases) - len(bad), "crashing_or_internal_replies": len(bad),
-           "exploration_note": "absence of panics / non-termination beyond ll_no_internal is only observed on the explored inputs"}
+           "exploration_note": "absence of panics beyond ll_no_internal / lr_no_internal, and termination of the real parsers beyond the theorems about the models, are only observed on the explored inputs"}
     if bad:
         bad.sort(key=lambda t: len(t[0]))
         common.violation(ctx, "C19_crash.json", {"kind": "a real parser panicked or reported an internal error",
                                                  "case": bad[0][0], "impl_reply": bad[0][1], "count": len(bad)})
-    # watchdog on cyclic LALR(1) grammars
-    okg, _ = common.gen_cases("lrrun", ctx.seed, ctx.tier, ctx.path("cyclic.txt"), extra=["cyclic"])
-    cyc = common.read_lines(ctx.path("cyclic.txt"))
-    hangs, other = [], []
+    # Watchdog on cyclic LALR(1) grammars, guided by the verified checker lrNoReduceLoopB (lr_terminates):
+    #  * tables the checker ACCEPTS: the model terminates on every input (theorem), so must the real parser —
+    #    all such cases are run in separate processes under a CPU-time limit; exceeding it is a violation;
+    #  * tables the checker REJECTS are instances of finding F24; a sample is run to confirm that the real parser
+    #    indeed loops on some of them (reported as KNOWN-FINDING).
+    common.gen_cases("lrrun", ctx.seed, ctx.tier, ctx.path("cyclic.txt"), extra=["cyclic"])
+    cyc = [c for c in common.read_lines(ctx.path("cyclic.txt")) if c.split()[0] == "lr" and len(c.split()) >= 14]
+    keys = {}
+    for c in cyc:
+        w = c.split()
+        keys.setdefault(" ".join(w[1:4]) + " " + w[13], []).append(c)
+    klist = list(keys)
+    verdicts = common.model_lines(["lr-term-ok " + k for k in klist]) if klist else []
+    loops = {k for k, v in zip(klist, verdicts) if v.startswith("fail reduce-loop")}
+    good = [c for k in klist if k not in loops for c in keys[k]]
+    f24_cases = [keys[k][0] for k in klist if k in loops]
+    hangs, other, inconclusive = [], [], 0
     t0 = time.time()
-    budget = 600 if ctx.thorough else 45
+    budget = 900 if ctx.thorough else 150
     checked = 0
-    for i in range(0, len(cyc), 40):
+    for i in range(0, len(good), 60):
         if time.time() - t0 > budget:
             break
-        chunk = cyc[i:i + 40]
-        rc, reps = run_limited(chunk, 20)
+        chunk = good[i:i + 60]
+        st, reps = run_limited(chunk, 600)
         checked += len(chunk)
-        if rc == 0 and len(reps) == len(chunk):
+        if st == 0 and len(reps) == len(chunk):
             other += [(c, r) for c, r in zip(chunk, reps) if r.split(" ")[0].startswith(BAD)]
             continue
-        for c in chunk:       # find the runs that hang or blow up
-            rc1, reps1 = run_limited([c], 4)
-            if rc1 != 0 or len(reps1) != 1:
-                hangs.append((c, rc1))
-            elif reps1[0].split(" ")[0].startswith(BAD):
+        if st == "wall":
+            inconclusive += len(chunk)
+            continue
+        for c in chunk:       # find the run that loops or blows up
+            st1, reps1 = run_limited([c], 300)
+            if st1 in ("cpu", "mem"):
+                hangs.append((c, st1))
+            elif st1 == "wall":
+                inconclusive += 1
+            elif reps1 and reps1[0].split(" ")[0].startswith(BAD):
                 other.append((c, reps1[0]))
+    confirmed = []
+    for c in f24_cases[:(40 if ctx.thorough else 8)]:
+        st1, _ = run_limited([c], 300)
+        if st1 in ("cpu", "mem"):
+            confirmed.append((c, st1))
     known = {k["id"]: k for k in common.load_known(ctx.pid)}
-    f24 = [h for h in hangs if table_has_reduce_loop(h[0])]
-    new = [h for h in hangs if h not in f24]
-    cov.update({"cyclic_grammar_runs": checked, "non_terminating_or_memory_exhausting_runs": len(hangs),
-                "attributed_to_F24": len(f24)})
-    if f24 and "F24" in known:
-        ctx.known.append(f"F24 {known['F24']['text']} (reproduced on {len(f24)} run(s), e.g. grammar `{f24[0][0].split()[8]}` input tokens `{f24[0][0].split()[6]}`)")
-    elif f24:
-        new += f24
-    if new:
-        common.violation(ctx, "C19_hang.json", {"kind": "a real parser did not terminate within 4 s / 3 GB", "case": new[0][0],
-                                                "status": str(new[0][1]), "count": len(new)})
+    cov.update({"cyclic_grammar_runs_on_tables_accepted_by_lrNoReduceLoopB": checked,
+                "of_these_non_terminating_or_memory_exhausting": len(hangs),
+                "inconclusive_wall_clock_only": inconclusive,
+                "cyclic_tables": len(klist), "cyclic_tables_rejected_by_lrNoReduceLoopB": len(loops),
+                "rejected_tables_sampled": min(len(f24_cases), 40 if ctx.thorough else 8),
+                "sampled_runs_confirmed_looping": len(confirmed),
+                "limits": f"{CPU_LIMIT} s CPU, 3 GB per process"})
+    if loops and "F24" in known:
+        eg = (confirmed or [(f24_cases[0], "")])[0][0].split()
+        ctx.known.append(f"F24 {known['F24']['text']} ({len(loops)} of {len(klist)} tables of cyclic grammars are rejected by the checker; "
+                         f"{len(confirmed)} of {cov['rejected_tables_sampled']} sampled real runs exceeded the CPU/memory limit, e.g. grammar `{eg[8]}` input tokens `{eg[6]}`)")
+    elif loops:
+        common.violation(ctx, "C19_reduce_loop.json", {"kind": "the verified checker lrNoReduceLoopB rejects a table parol generated (the LR parser loops on some stack/lookahead)",
+                                                       "case": f24_cases[0], "count": len(loops)})
+    if hangs:
+        common.violation(ctx, "C19_hang.json", {"kind": f"the real LR parser exceeded {CPU_LIMIT} s CPU / 3 GB on a table for which the model provably terminates",
+                                                "case": hangs[0][0], "status": str(hangs[0][1]), "count": len(hangs)})
     if other:
         common.violation(ctx, "C19_crash_cyclic.json", {"kind": "a real parser panicked or reported an internal error",
                                                         "case": other[0][0], "impl_reply": other[0][1], "count": len(other)})
@@ -177,7 +218,7 @@ CLAIM = {
     "category": "proof",
     "text": "Theorem ll_no_internal: for every LL table set accepted by the verified checker tablesInRangeB (start, left-hand sides, non-terminals and predictable productions in range; no end-of-production marker or T(0) inside a right-hand side; sorted automata; an accepting start state has no transitions) and EVERY input and option record, the model of LLKParser::parse_into never reaches an internal outcome — no index out of range, no parse-tree-stack underflow in process_item_stack (stack discipline invariant StackOK), no failing debug assertion in eval. The checker is evaluated on every real table. Theorem lr_no_internal (Props/C19b): the same for the LR parser model under the verified checker lrTableComplete (lrTableValid + all shift/goto targets in range + a goto on the left-hand side exists wherever a reduction can land), also evaluated on every real LALR(1) table. Theorem ll_terminates_bound (Props/C19c): for LL tables passing tablesSoundB and the verified certificate checker noLeftRecB (a nullable-closed set and weights w[lhs] >= 2 + weight of the nullable prefix and first non-nullable symbol of every right-hand side — exists iff there is no left recursion, also through nullable prefixes) the parser model terminates within llFuelBound T n = M*W*(n+1)+M+2 loop iterations on EVERY input of n tokens (potential argument); the checker is evaluated on every real LL table; exTLeftRec_not_terminates shows the hypothesis is needed; par_parsers_terminate (Props/C19d) evaluates it in the kernel on parol's own two PAR parser tables. Theorem lr_terminates_bound (Props/C19e): for every LR table accepted by the verified checker lrNoReduceLoopB (summaries of all reduce-only computations per (lookahead, state below, top state), verified against one unfolding of the parser step) the LR parser model terminates within (|toks|+1)(C^2+3C+1) iterations on every input; the checker is evaluated on every real LALR(1) table; f24_never_terminates / hlr_never_terminates prove non-termination for two real parol tables the checker rejects (finding F24). PARTIAL: that parol only generates tables passing the checker is false (F24) and recovery is not a theorem; they are explored — both real parsers on garbled inputs with recovery on and off under catch_unwind (no panic, no internal/data/lexer error), and a per-process watchdog on cyclic LALR(1) grammars.",
     "design_ref": "DESIGN.md §6 C19",
-    "note": "Proofs for LL and LR index/stack safety and LL and LR termination under checked table hypotheses; recovery and real time are explored only. Known finding F24 (LR parser does not terminate on cyclic grammars accepted with resolved conflicts) is reproduced by the watchdog and reported as KNOWN-FINDING. Trusted: Lean kernel; faithfulness of the model as observed; harness, watchdog limits (4 s, 3 GB).",
+    "note": "Proofs for LL and LR index/stack safety and LL and LR termination under checked table hypotheses; recovery and real time are explored only. Known finding F24 (LR parser does not terminate on cyclic grammars accepted with resolved conflicts) is reproduced by the watchdog and reported as KNOWN-FINDING. Trusted: Lean kernel; faithfulness of the model as observed; harness, watchdog limits (12 s CPU, 3 GB per process).",
     "technique": "Lean 4 proof (LL and LR index safety, LL and LR termination with explicit bounds under checked table hypotheses) over hand-written model + differential correspondence check on garbled inputs + watchdog exploration",
 }
 
@@ -189,6 +230,6 @@ def run(ctx):
 def replay(ctx, payload):
     case = payload.get("case")
     common.build_harness()
-    rc, reps = run_limited([case], 6)
+    rc, reps = run_limited([case], 300)
     print(f"case: {case}\nstatus: {rc}\nreply: {reps}")
     return 0 if (rc == 0 and reps and not reps[0].startswith(BAD)) else 1
